@@ -126,6 +126,14 @@ func GenUniverse(t *rapid.T, o UniverseOpts, c *Case) map[string]UBinding {
 		impl = append(impl, rapid.Permutation(names).Draw(t, "implPerm")[:n]...)
 		m := rapid.IntRange(1, len(names)).Draw(t, "nMem")
 		mem := append([]string{}, rapid.Permutation(names).Draw(t, "memPerm")[:m]...)
+		// the operation root is an object type like any other: it may implement the interface and be
+		// a member of the union, and be returned under fields typed with them
+		if rapid.IntRange(0, 2).Draw(t, "queryImplements") == 0 {
+			impl = append(impl, "Query")
+		}
+		if rapid.IntRange(0, 3).Draw(t, "queryIsMember") == 0 {
+			mem = append(mem, "Query")
+		}
 		s.Types = append(s.Types, &hx.TypeDef{Kind: hx.KInterface, Name: "Named", Fields: []*hx.Field{
 			{Name: "str", Type: hx.Named("String")}, {Name: "greet", Type: hx.Named("String")}, {Name: "echo", Type: hx.Named("String"), Args: []*hx.Arg{strArg()}}}})
 		s.Types = append(s.Types, &hx.TypeDef{Kind: hx.KUnion, Name: "Any", Members: mem})
